@@ -66,6 +66,7 @@
 From Coq Require Import ZArith List Lia Bool.
 From LZ4V Require Import Spec.BlockSpec Spec.XXH32 Spec.FrameSpec Gen.Consts Model.FrameD.
 From LZ4V Require Import Proofs.FrameDHeader Proofs.FrameDProofs Proofs.FrameDSound Proofs.FrameDChunk.
+From LZ4V Require Import Spec.BlockFast Model.FrameDDict Proofs.FrameDDictProofs.
 Import ListNotations.
 Local Open Scope Z_scope.
 
@@ -316,3 +317,67 @@ Example C08_example_skip_asymmetry :
   (r_ret (snd (decompress spec_decode dctx_init raw 100 o)), r_out (snd (decompress spec_decode dctx_init raw 100 o)))
     = (0, [97; 98; 99; 100; 101]).
 Proof. vm_compute. split; reflexivity. Qed.
+
+(* ==== round 6: the concrete dictionary / tmpOut bookkeeping (Model.FrameDDict: LZ4F_updateDict, choice of
+   the decode destination, flushOut, "preserve history" at the end of a call) ============================ *)
+
+(* the concrete call IS Model.FrameD's call as far as the abstract state and the reported result go *)
+Theorem C08_ddict_rides_along : forall bdec s d src cap o dst,
+  fst (fst (dd_decompress bdec s d src cap o dst)) = decompress bdec s src cap o.
+Proof. exact dd_decompress_abstract. Qed.
+Print Assumptions C08_ddict_rides_along.
+
+(* (a), function level: every bookkeeping function keeps the invariant [ddI] and each memcpy / decoder call
+   it performs stays inside tmpOutBuffer[0, maxBufferSize) resp. the dst window [dstStart, dstPtr + capacity),
+   memcpy source/destination inside tmpOutBuffer do not overlap.  Side conditions on the arguments
+   (dstStart <= dstPtr, 0 <= capacity, decodedSize <= maxBlockSize, maxBufferSize >= maxBlockSize + 128 KB when
+   linked) are hypotheses here; that the stage machine meets them on every session is
+   [C08_tmpOut_in_bounds_full_statement] (not proved; evaluated by the oracle on every call of the runs). *)
+Theorem C08_tmpOut_in_bounds_partial : forall mb maxBuf lnk,
+  sizes mb maxBuf lnk ->
+  (forall dstnull d dstPtr dstStart piece hi,
+     ddI mb maxBuf lnk false d -> dstStart <= dstPtr -> dstPtr + zlen piece <= hi ->
+     Forall (op_ok maxBuf dstStart hi) (snd (dd_copyDirect maxBuf lnk dstnull d dstPtr dstStart piece)) /\
+     ddI mb maxBuf lnk false (fst (dd_copyDirect maxBuf lnk dstnull d dstPtr dstStart piece))) /\
+  (forall dstnull d dstPtr dstStart cap c,
+     ddI mb maxBuf lnk false d -> dstStart <= dstPtr -> 0 <= cap -> zlen c <= mb ->
+     Forall (op_ok maxBuf dstStart (dstPtr + cap)) (snd (dd_cblock mb maxBuf lnk dstnull d dstPtr dstStart cap c)) /\
+     ddI mb maxBuf lnk (negb (decode_direct mb d cap)) (fst (dd_cblock mb maxBuf lnk dstnull d dstPtr dstStart cap c))) /\
+  (forall dstnull d dstPtr dstStart cap,
+     ddI mb maxBuf lnk true d -> dstStart <= dstPtr -> 0 <= cap ->
+     Forall (op_ok maxBuf dstStart (dstPtr + cap)) (snd (dd_flushOut maxBuf lnk dstnull d dstPtr dstStart cap)) /\
+     ddI mb maxBuf lnk true (fst (dd_flushOut maxBuf lnk dstnull d dstPtr dstStart cap))) /\
+  (forall stable stage fl d lo hi,
+     ddI mb maxBuf lnk fl d -> (fl = true <-> stage = FlushOut) ->
+     Forall (op_ok maxBuf lo hi) (snd (dd_endcall lnk stable stage d)) /\
+     ddI mb maxBuf lnk fl (fst (dd_endcall lnk stable stage d))).
+Proof. exact tmpOut_in_bounds_partial. Qed.
+Print Assumptions C08_tmpOut_in_bounds_partial.
+Definition C08_tmpOut_in_bounds_full_statement : Prop := tmpOut_in_bounds_full_statement.
+(* hypotheses satisfiable: block size 64 KB, linked, the state right after dstage_init *)
+Example C08_tmpOut_in_bounds_example :
+  sizes 65536 (65536 + 131072) true /\ ddI 65536 (65536 + 131072) true false (dd_stage_init dd_init).
+Proof. exact ddI_example. Qed.
+(* the executable check the oracle runs on the operations of every call implies [op_ok] *)
+Theorem C08_op_okb_sound : forall maxBuf lo hi op, op_okb maxBuf lo hi op = true -> op_ok maxBuf lo hi op.
+Proof. exact op_okb_ok. Qed.
+Print Assumptions C08_op_okb_sound.
+
+(* (b) read literally -- "the dictSize bytes at dctx->dict are the last dictSize bytes of the output so far" -- is
+   FALSE of the faithful model (and of the real context: replayed, see c08.py): after the one legal call
+   [wit_run] (linked frame, a stored 61440-byte block then a block decoding to 10241 bytes, capacity 61441,
+   stableDst = 0) dict = tmpOutBuffer, dictSize = 61441, but tmpOutBuffer[0, 6145) was never written:
+   "preserve history" copies only copySize = 64 KB - tmpOutSize bytes in front of tmpOut while dictSize
+   counts preserveSize.  Harmless for decoding (match offsets are < 64 KB and, once the block is flushed, the last
+   64 KB at dict+dictSize are valid): the true statement is about the last min(dictSize, 64 KB) bytes at the
+   moment a block is decoded ([dict_tail_is_history]); it is not proved. *)
+Theorem C08_dict_is_history_refuted :
+  linked wit_s = true /\ 0 <= r_ret wit_r /\
+  forall m0, m_tmp m0 0 <> 7 ->
+    ~ dict_is_history (exec_ops m0 wit_ops) wit_d (r_out wit_r).
+Proof. exact dict_is_history_refuted. Qed.
+Print Assumptions C08_dict_is_history_refuted.
+(* the true form of (b): at every decoder call of a session decoding one linked frame (no stableDst, the caller may
+   overwrite its memory between calls) the last min(dictSize, 64 KB) bytes at dict+dictSize are the end of the
+   history and dictSize >= min(64 KB, |history|).  Stated, not proved. *)
+Definition C08_dict_is_history_full_statement : Prop := dict_is_history_full_statement.
